@@ -24,6 +24,14 @@ def rnd_runs(r, dt, n=None, nan_ok=True, small=False):
 
 
 def gen_c14(r):
+    if r.random() < 0.04:
+        # a long array (tens of thousands of cells, a few dozen runs, runs that straddle every power-of-two position), given run by run
+        dt = r.choice(["i8", "u1", "i2", "b1", "i4"])
+        total = r.choice([40000, 65537, 70000, 131073, 140000])
+        cuts = sorted({r.randint(1, total - 1) for _ in range(r.randint(1, 12))} | {c for c in (32768, 65536, 131072) if c < total and r.random() < 0.5})
+        bounds = [0] + cuts + [total]
+        vals = [(i % 2 if dt == "b1" else (3 + i) % 5) if r.random() < 0.75 else (0 if dt == "b1" else 3) for i in range(len(bounds) - 1)]
+        return ["rl_encode_runs", dt, [[v, b - a] for v, a, b in zip(vals, bounds, bounds[1:])]], {}, True
     dt = r.choice(RL_DTS)
     a = rnd_runs(r, dt, r.choice([1, 1, 2, 3, 4, 6, 9, 14]))
     if dt in ("i8", "u8", "u4") and r.random() < 0.5:
